@@ -1143,13 +1143,15 @@ def canon_style(cfg, E, ln, tabs):
     if "hue" in pa and "color" in pa:
         c = hue_color_param(rgba)
         if len(c) > 1:
-            # a colormap is a 256-entry table: two parameters can give one colour.  Keep the readings that are
-            # possible for the NUMBER of hue / colour levels of this plot (k/H and j/(M-1)); which level a given
-            # line should have is not used
-            H = len(E.axes[pa["hue"]]["labels"])
-            M = len(E.axes[pa["color"]]["labels"])
-            ok = [h for h in c if H % h[1] == 0 and (M == 1 or (M - 1) % h[3] == 0)]
-            c = ok or c
+            # a colormap is a 256-entry table: two parameters can give one colour.  Two fractions with
+            # denominators up to 16 differ by more than one table cell, so the reading with the smallest
+            # denominators is the only one a plot with up to 17 colour levels can have produced (the number of
+            # levels actually drawn can be smaller than the number of coordinates: all-NaN slices are dropped,
+            # so it is not taken from the dataset)
+            best = min((h[1], h[3]) for h in c)
+            ok = [h for h in c if (h[1], h[3]) == best]
+            if len(ok) == 1 and best[1] <= 16:
+                c = ok
         out.append(["ht", [c[0][0], c[0][1]], [c[0][2], c[0][3]]] if len(c) == 1 else ["?", len(c)])
     elif "color" in pa:
         if cfg.get("palette") is not None:
